@@ -82,3 +82,25 @@ Theorem C06_substituted_key_at_each_of_the_20_suites :
   all_suites (fun _ _ _ _ CS => CurveLaws CS -> C06_substituted_key_statement CS).
 Proof. apply at_the_20_suites. exact C06_substituted_key. Qed.
 Print Assumptions C06_substituted_key_at_each_of_the_20_suites.
+
+
+(* further theorems above, restated at the 20 suites *)
+
+Definition C06_reported_key_statement {E Sc Pk Sk} (CS : Suite E Sc Pk Sk) : Prop :=
+  forall tape setup t1 pw creg rq t2 cred rr ids ksf upload ek spk t3 clog ke1 t4 ctx slog ke2 t5 dbg,
+    ve CS (o_h2g (oprf CS) pw (dst_hash_to_group (oprf CS))) ->
+    server_setup_new CS tape = Ok (setup, t1) ->
+    client_registration_start CS t1 pw = Ok (creg, rq, t2) ->
+    server_registration_start CS setup rq cred = Ok rr ->
+    client_registration_finish CS creg t2 pw rr ids ksf = Ok (upload, ek, spk, t3) ->
+    client_login_start CS t3 pw = Ok (clog, ke1, t4) ->
+    server_login_start CS (private_key_ops (ke CS)) t4 setup (Some (server_registration_finish upload)) ke1 cred ctx ids
+      = Ok (slog, ke2, t5, dbg) ->
+    o_eqb (oprf CS) (cq_blinded ke1) (cr_eval ke2) = false ->
+    exists ke3 sk dbg',
+      client_login_finish CS clog pw ke2 ctx ids ksf = Ok (ke3, sk, ek, spk, dbg') /\
+      server_login_finish CS slog ke3 = Ok sk /\
+      spk = kp_pk (ss_keypair setup) /\ kp_pk (ss_keypair setup) = k_pub (ke CS) (kp_sk (ss_keypair setup)).
+Theorem C06_reported_key_at_each_of_the_20_suites : all_suites (fun _ _ _ _ CS => CurveLaws CS -> C06_reported_key_statement CS).
+Proof. apply at_the_20_suites. exact C06_reported_key. Qed.
+Print Assumptions C06_reported_key_at_each_of_the_20_suites.
